@@ -865,7 +865,58 @@ class Interp:
         b = self.eval(e.right, env)
         return self.binop(BINOPS[type(e.op)], a, b, e.lineno)
 
+    def ragged_binop(self, op, a, b, lineno):
+        """elementwise arithmetic where at least one operand is ragged: ragged op ragged (same shape: obligation), ragged op scalar,
+        (n,1) column op ragged (the column broadcasts along each row), scalar ** ragged with base 10 (uninterpreted pow10 with its recurrence).
+        The result is a ragged VALUE with the shape of the ragged operand."""
+        from .pybuiltins import SRaggedObj
+        M.use("elementwise arithmetic on ragged arrays (row-wise, column vectors broadcast along rows)")
+        c = self.ctx
+        r = a if isinstance(a, SRagged) else b
+        if isinstance(a, SRagged) and isinstance(b, SRagged):
+            M.same_len(a.n, b.n, "ragged.binop.rows", lineno)
+            la, lb = a.lens, b.lens
+            c.oblige("%s:ragged.binop.same.row.lengths@L%s" % (c.fname, lineno), Forall(lambda i: Implies(in_range(i, a.n), I(la(i)) == I(lb(i)))), "safety", lineno)
+
+        def elem(x, i, k):
+            if isinstance(x, SRagged):
+                return x.at(i, k)
+            if isinstance(x, SArr2):
+                return x.at2(i, 0)
+            if isinstance(x, SArr):
+                raise Unsupported("1-D array combined with a ragged array")
+            return x
+        if isinstance(a, SArr2):
+            if conc(a.cols) != 1:
+                raise Unsupported("2-D operand of a ragged operation must be a column")
+            M.same_len(a.rows, r.n, "ragged.binop.column", lineno)
+        if isinstance(b, SArr2):
+            if conc(b.cols) != 1:
+                raise Unsupported("2-D operand of a ragged operation must be a column")
+            M.same_len(b.rows, r.n, "ragged.binop.column", lineno)
+        if op == "Pow":
+            if not (conc(a) == 10 and isinstance(b, SRagged)):
+                raise Unsupported("power with ragged operands other than 10 ** ragged")
+            P10 = M.pow10()
+            fn = lambda i, k: P10(I(b.at(i, k)))
+            lb0 = b.lens
+            c.oblige("%s:pow10.exponent.nonneg@L%s" % (c.fname, lineno),
+                     Forall(lambda i, k: Implies(And(in_range(i, b.n), in_range(k, lb0(i))), I(b.at(i, k)) >= 0), nvars=2), "safety", lineno, "10 ** e needs e >= 0 for integers")
+        elif op in ("FloorDiv", "Mod"):
+            lr = r.lens
+            c.oblige("%s:div.positive@L%s" % (c.fname, lineno),
+                     Forall(lambda i, k: Implies(And(in_range(i, r.n), in_range(k, lr(i))), I(elem(b, i, k)) > 0), nvars=2), "safety", lineno, "every divisor element > 0")
+            idx = 0 if op == "FloorDiv" else 1
+            fn = lambda i, k: M._divmod_noassert(elem(a, i, k), elem(b, i, k))[idx]
+        else:
+            fn = lambda i, k: M.scalar_binop(op, elem(a, i, k), elem(b, i, k), lineno)
+        out = SRaggedObj(None, r.n, r.starts, r.lens, None, r.total, r.contiguous, getattr(r, "C", None))
+        out.at = fn
+        return out
+
     def binop(self, op, a, b, lineno=None):
+        if isinstance(a, SRagged) or isinstance(b, SRagged):
+            return self.ragged_binop(op, a, b, lineno)
         if isinstance(a, list) and isinstance(b, list) and op == "Add":
             return a + b
         if isinstance(a, tuple) and isinstance(b, tuple) and op == "Add":
